@@ -142,6 +142,15 @@ def lockTrace (s : Srv) : Env → List LEv
     else within .pendingTree (pendingLoopTr ro s (s.pendingTM.filter (fun tm => tm.ro = ro.id)))
   | .config w _ => if !w then [] else cfgOp
 
+/-- the handler of a protocol message that misses its tree and finds it unregistered, with the window of
+`rwindow` open between `IsRegistered` and `Register` (the envelopes handled there run in goroutines of their own):
+`Register` takes and releases the store's mutex whether or not the tree is known by then -/
+def missTr : List LEv := tsOp ++ pmOp ++ tsOp ++ tsOp ++ tsOp
+
+/-- a `Register` that returns early, for an id that is known already, without releasing the store's mutex (the
+seeded change C07r5-A): the trace of the same handler when the window made the tree known -/
+def missTrLeaky : List LEv := tsOp ++ pmOp ++ tsOp ++ tsOp ++ [.acq .store]
+
 /-- the pinned code before repair 9b09732: a roster message with nothing pending returned with the lock held -/
 def lockTraceOld (s : Srv) : Env → List LEv
   | .sendRoster ro =>
